@@ -101,6 +101,7 @@ SE3_OPS = ["construct", "compose", "compose", "compose", "ominus", "ominus", "in
 
 class C11(OptEngineBase):
     PROPERTY = "C11"
+    SWEEP_EVERY = {}
     ENGINE_NAME = "simchain"
     RUN_WALL_CAP_S = 300
     TIERS = {
